@@ -5,7 +5,18 @@
 (* composed with the registry loop that runs one test after the other      *)
 (* (property C11).                                                         *)
 (*                                                                         *)
-(* One action per code step of the parent: StartTest, ForkFail, ForkOk,    *)
+(* The registry is an object with a history: tests are added (plain tests  *)
+(* and IGNORE_TESTs; the newest test runs first), the options "run tests   *)
+(* in a separate process" and "run ignored tests" are set (in any order,   *)
+(* before or between runs), and it is run any number of times.  Which      *)
+(* tests of a run are executed, and where, follows from that history:      *)
+(* an ignored test is only counted unless run-ignored is set; in a run     *)
+(* with the separate-process option EVERY executed test goes through fork  *)
+(* (`where' = "child": none of its code runs in the runner process).       *)
+(*                                                                         *)
+(* One action per public call on the registry (AddTest, SetSep,            *)
+(* SetRunIgnored, Begin = runAllTests) and per code step of the parent:    *)
+(* StartTest, ForkFail, ForkOk,                                            *)
 (* one action per outcome of a waitpid call (EINTR, other error, exited,   *)
 (* signaled, stopped), EndTest, End.                                       *)
 (* The environment (kernel + child) chooses the outcomes.  `plan' is the   *)
@@ -17,7 +28,10 @@
 EXTENDS Naturals, Integers, Sequences, FiniteSets, TLC
 
 CONSTANTS RetryBound,   \* EINTR results tolerated per test before giving up (measured from the code under test)
-          MaxTests,     \* most tests in a run (model bound)
+          MaxTests,     \* most tests in the registry (model bound)
+          MaxRuns,      \* most runs of one registry (model bound)
+          Kinds,        \* kinds of tests that may be added (subset of {"plain", "ignored"}; model bound)
+          Options,      \* registry options the user may set (subset of {"sep", "ri"}; model bound)
           ExitCodes,    \* exit statuses the environment may report (subset of 0..255)
           Signals,      \* signal numbers (subset of 1..31, or up to 64 with real-time signals)
           MaxStops,     \* stops per child the environment produces (model bound; a child that stops forever never ends)
@@ -29,7 +43,13 @@ StopSignals == {19, 20, 21, 22}                 \* SIGSTOP SIGTSTP SIGTTIN SIGTT
 TtyStops    == {20, 21, 22}                     \* discarded when the process group is orphaned
 TermSignals == (1..31) \ (IgnSignals \cup StopSignals)
 
-VARIABLES pc,       \* "idle" | "next" | "fork" | "wait" | "end" | "done"
+VARIABLES pc,       \* "idle" | "next" | "fork" | "wait" | "end" | "done" ("done" = a run has ended and the registry was not touched since)
+          sep,      \* registry option: run tests in a separate process (-p)
+          ri,       \* registry option: run ignored tests (-ri)
+          tests,    \* the registered tests in running order: sequence of kinds "plain" | "ignored"
+          runs,     \* runs started on this registry
+          where,    \* where the code of the current test executes: "none" (only counted as ignored) | "child" | "runner"
+          ign,      \* tests of this run that were only counted as ignored
           n,        \* tests in the run
           ti,       \* number of the test being run
           beh,      \* environment: what the child of this test will do ([act, arg]; act "any" when fork/waitpid are stubs)
@@ -44,7 +64,7 @@ VARIABLES pc,       \* "idle" | "next" | "fork" | "wait" | "end" | "done"
           plan,     \* environment: <<"any">> (stubs) or the status words still to come from the child
           tty       \* environment: TRUE when terminal stop signals take effect (process group not orphaned)
 
-vars == <<pc, n, ti, beh, retries, stops, waits, conts, tfail, ev, total, ran, plan, tty>>
+vars == <<pc, sep, ri, tests, runs, where, ign, n, ti, beh, retries, stops, waits, conts, tfail, ev, total, ran, plan, tty>>
 
 F(kind, arg) == [kind |-> kind, arg |-> arg]
 Exited(c)   == [st |-> "exited", arg |-> c]
@@ -73,28 +93,59 @@ Allowed(o) == plan = AnyPlan \/ (plan # <<>> /\ Head(plan) = o)
 Consume == IF plan = AnyPlan THEN AnyPlan ELSE Tail(plan)
 
 NoBeh == [act |-> "any", arg |-> 0]
-Init == /\ pc = "idle" /\ n = 0 /\ ti = 0 /\ beh = NoBeh /\ retries = 0 /\ stops = 0 /\ waits = 0 /\ conts = 0
+Init == /\ pc = "idle" /\ sep = FALSE /\ ri = FALSE /\ tests = <<>> /\ runs = 0 /\ where = "none" /\ ign = 0
+        /\ n = 0 /\ ti = 0 /\ beh = NoBeh /\ retries = 0 /\ stops = 0 /\ waits = 0 /\ conts = 0
         /\ tfail = <<>> /\ ev = <<>> /\ total = 0 /\ ran = 0 /\ plan = AnyPlan /\ tty = TRUE
 
-\* TestRegistry::runAllTests with run-in-separate-process set
-Begin(k, t) == /\ pc = "idle" /\ pc' = "next" /\ n' = k /\ tty' = t
-               /\ UNCHANGED <<ti, beh, retries, stops, waits, conts, tfail, ev, total, ran, plan>>
+\* ---- the registry between runs
+AtRest == pc \in {"idle", "done"}
+runvars == <<where, ign, n, ti, beh, retries, stops, waits, conts, tfail, ev, total, ran, plan, tty>>
 
-\* runOneTest: countRun, then the platform runner
-StartTest(b) == /\ pc = "next" /\ ti < n /\ pc' = "fork" /\ ti' = ti + 1 /\ ran' = ran + 1 /\ beh' = b
-                /\ retries' = 0 /\ stops' = 0 /\ waits' = 0 /\ conts' = 0 /\ tfail' = <<>> /\ ev' = <<>>
-                /\ UNCHANGED <<n, total, plan, tty>>
+\* TestRegistry::addTest: the new test becomes the first of the list
+AddTest(k) == /\ AtRest /\ Len(tests) < MaxTests /\ pc' = "idle" /\ tests' = <<k>> \o tests
+              /\ UNCHANGED <<sep, ri, runs, runvars>>
+\* TestRegistry::setRunTestsInSeperateProcess / setRunIgnored: sticky options of the registry
+SetSep == /\ AtRest /\ ~sep /\ pc' = "idle" /\ sep' = TRUE /\ UNCHANGED <<ri, tests, runs, runvars>>
+SetRunIgnored == /\ AtRest /\ ~ri /\ pc' = "idle" /\ ri' = TRUE /\ UNCHANGED <<sep, tests, runs, runvars>>
+
+\* is a test of kind k executed in a run, and where does its code execute (the intended design).  C11 speaks about runs with
+\* the separate-process option only: in a run without it, whether an ignored test is executed or only counted is left open here.
+WillRun(k) == k = "plain" \/ ri
+Place(k) == IF ~WillRun(k) THEN "none" ELSE IF sep THEN "child" ELSE "runner"
+Places(k) == IF sep \/ k = "plain" THEN {Place(k)} ELSE {"none", "runner"}
+
+\* TestRegistry::runAllTests (with a fresh TestResult) on whatever the registry holds now
+Begin(t) == /\ AtRest /\ tests # <<>> /\ runs < MaxRuns /\ pc' = "next" /\ runs' = runs + 1
+            /\ n' = Len(tests) /\ tty' = t /\ ti' = 0 /\ total' = 0 /\ ran' = 0 /\ ign' = 0
+            /\ UNCHANGED <<sep, ri, tests, where, beh, retries, stops, waits, conts, tfail, ev, plan>>
+
+\* the next test of the list.  An ignored test that is not to be run is only counted.  Otherwise runOneTest: countRun, then
+\* the platform runner when the run is in separate-process mode; without that option the test runs in the runner itself
+\* (outside C11; only bodies that pass or fail a check are considered there).
+StartTest(b) ==
+    /\ pc = "next" /\ ti < n /\ ti' = ti + 1 /\ beh' = b
+    /\ retries' = 0 /\ stops' = 0 /\ waits' = 0 /\ conts' = 0
+    /\ where' \in Places(tests[ti + 1])
+    /\ CASE where' = "none" ->
+               /\ pc' = "end" /\ ign' = ign + 1 /\ tfail' = <<>> /\ ev' = <<>> /\ plan' = <<>> /\ UNCHANGED ran
+         [] where' = "child" ->
+               /\ pc' = "fork" /\ ran' = ran + 1 /\ tfail' = <<>> /\ ev' = <<>> /\ UNCHANGED <<ign, plan>>
+         [] where' = "runner" ->
+               /\ b.act \in {"pass", "fail"} /\ pc' = "end" /\ ran' = ran + 1 /\ plan' = <<>> /\ UNCHANGED ign
+               /\ tfail' = (IF b.act = "fail" THEN <<F("check", 0)>> ELSE <<>>)
+               /\ ev' = (IF b.act = "fail" THEN <<F("check", 0)>> ELSE <<>>)
+    /\ UNCHANGED <<sep, ri, tests, runs, n, total, tty>>
 
 \* fork() = -1: one failure, the test is over (nothing to wait for)
 ForkFail == /\ pc = "fork" /\ pc' = "end"
             /\ tfail' = Append(tfail, F("fork", 0)) /\ ev' = Append(ev, F("fork", 0))
             /\ plan' = <<>>
-            /\ UNCHANGED <<n, beh, ti, retries, stops, waits, conts, total, ran, tty>>
+            /\ UNCHANGED <<sep, ri, tests, runs, where, ign, n, beh, ti, retries, stops, waits, conts, total, ran, tty>>
 
 \* fork() = pid: the child runs its behaviour; the parent starts waiting
 ForkOk == /\ pc = "fork" /\ pc' = "wait"
           /\ plan' \in Plans(beh, tty)
-          /\ UNCHANGED <<n, beh, ti, retries, stops, waits, conts, tfail, ev, total, ran, tty>>
+          /\ UNCHANGED <<sep, ri, tests, runs, where, ign, n, beh, ti, retries, stops, waits, conts, tfail, ev, total, ran, tty>>
 
 \* waitpid() = -1, errno EINTR: retried, but not for ever
 WaitEintr ==
@@ -103,13 +154,13 @@ WaitEintr ==
        THEN /\ tfail' = Append(tfail, F("eintr", 0)) /\ ev' = Append(ev, F("eintr", 0))
             /\ pc' = "end" /\ UNCHANGED retries
        ELSE /\ retries' = retries + 1 /\ UNCHANGED <<pc, tfail, ev>>
-    /\ UNCHANGED <<n, beh, ti, stops, conts, total, ran, plan, tty>>
+    /\ UNCHANGED <<sep, ri, tests, runs, where, ign, n, beh, ti, stops, conts, total, ran, plan, tty>>
 
 \* waitpid() = -1 with another errno: one failure, the test is over
 WaitError ==
     /\ pc = "wait" /\ waits' = waits + 1 /\ pc' = "end"
     /\ tfail' = Append(tfail, F("waitpid", 0)) /\ ev' = Append(ev, F("waitpid", 0))
-    /\ UNCHANGED <<n, beh, ti, retries, stops, conts, total, ran, plan, tty>>
+    /\ UNCHANGED <<sep, ri, tests, runs, where, ign, n, beh, ti, retries, stops, conts, total, ran, plan, tty>>
 
 \* the child exited: a failure exactly when the status is not 0
 WaitExited(c) ==
@@ -117,30 +168,32 @@ WaitExited(c) ==
     /\ waits' = waits + 1 /\ pc' = "end"
     /\ IF c # 0 THEN tfail' = Append(tfail, F("exit", 0)) /\ ev' = Append(ev, F("exit", c))
                 ELSE UNCHANGED <<tfail, ev>>
-    /\ UNCHANGED <<n, beh, ti, retries, stops, conts, total, ran, tty>>
+    /\ UNCHANGED <<sep, ri, tests, runs, where, ign, n, beh, ti, retries, stops, conts, total, ran, tty>>
 
 \* the child was killed by signal s
 WaitSignaled(s) ==
     /\ pc = "wait" /\ Allowed(Signaled(s)) /\ plan' = Consume
     /\ waits' = waits + 1 /\ pc' = "end"
     /\ tfail' = Append(tfail, F("signal", s)) /\ ev' = Append(ev, F("signal", s))
-    /\ UNCHANGED <<n, beh, ti, retries, stops, conts, total, ran, tty>>
+    /\ UNCHANGED <<sep, ri, tests, runs, where, ign, n, beh, ti, retries, stops, conts, total, ran, tty>>
 
 \* the child was stopped: one failure, SIGCONT, keep waiting for it
 WaitStopped(s) ==
     /\ pc = "wait" /\ Allowed(Stopped(s)) /\ plan' = Consume
     /\ waits' = waits + 1 /\ stops' = stops + 1 /\ conts' = conts + 1
     /\ tfail' = Append(tfail, F("stopped", 0)) /\ ev' = Append(ev, F("stopped", s))
-    /\ UNCHANGED <<pc, n, beh, ti, retries, total, ran, tty>>
+    /\ UNCHANGED <<sep, ri, tests, runs, where, ign, pc, n, beh, ti, retries, total, ran, tty>>
 
 \* back in the registry loop: the failures of this test are in the run's result
 EndTest == /\ pc = "end" /\ pc' = "next" /\ total' = total + Len(tfail)
-           /\ UNCHANGED <<n, beh, ti, retries, stops, waits, conts, tfail, ev, ran, plan, tty>>
+           /\ UNCHANGED <<sep, ri, tests, runs, where, ign, n, beh, ti, retries, stops, waits, conts, tfail, ev, ran, plan, tty>>
 
 End == /\ pc = "next" /\ ti = n /\ pc' = "done"
-       /\ UNCHANGED <<n, beh, ti, retries, stops, waits, conts, tfail, ev, total, ran, plan, tty>>
+       /\ UNCHANGED <<sep, ri, tests, runs, where, ign, n, beh, ti, retries, stops, waits, conts, tfail, ev, total, ran, plan, tty>>
 
-Next == \/ \E k \in 1..MaxTests, t \in BOOLEAN : Begin(k, t)
+Next == \/ \E k \in Kinds : AddTest(k)
+        \/ ("sep" \in Options /\ SetSep) \/ ("ri" \in Options /\ SetRunIgnored)
+        \/ \E t \in BOOLEAN : Begin(t)
         \/ (\E b \in Behaviours : StartTest(b)) \/ ForkFail \/ ForkOk
         \/ WaitEintr \/ WaitError
         \/ \E c \in ExitCodes : WaitExited(c)
@@ -158,9 +211,18 @@ FairSpec == Spec /\ WF_vars(Next)
 OncePerEvent == /\ Len(tfail) = Len(ev)
                 /\ \A i \in 1..Len(ev) : tfail[i].kind = ev[i].kind
 \* what counts as an event: fork error, wait error, gave up on EINTR, non-zero exit, killed, stopped
-EventsAreFailures == \A i \in 1..Len(ev) : ev[i].kind \in {"fork", "waitpid", "eintr", "exit", "signal", "stopped"}
+\* (and, in a run without the separate-process option, a failed check of the test itself)
+EventsAreFailures == \A i \in 1..Len(ev) : ev[i].kind \in {"fork", "waitpid", "eintr", "exit", "signal", "stopped", "check"}
                                            /\ (ev[i].kind = "exit" => ev[i].arg # 0)
                                            /\ (ev[i].kind = "signal" => tfail[i].arg = ev[i].arg)
+                                           /\ (ev[i].kind = "check" => where = "runner")
+\* containment: in a run with the separate-process option no test executes in the runner process - whatever the kind of the
+\* test, whenever it was added, in whatever order the options were set and however many runs the registry has been through;
+\* and the parent only forks / waits for tests that execute in a child
+InRun == pc \in {"next", "fork", "wait", "end"}
+Contained == /\ (InRun /\ sep /\ ti > 0) => where \in {"child", "none"}
+             /\ (pc \in {"fork", "wait"}) => (sep /\ where = "child")
+             /\ (InRun /\ ti > 0 /\ pc # "next") => where \in Places(tests[ti])
 \* every stop is answered by exactly one SIGCONT
 StopsResumed == conts = stops
 \* bounded waiting: the waitpid calls of one test are the EINTR results (bounded), the stops, and one last call
@@ -169,11 +231,16 @@ WaitsBounded == /\ retries <= RetryBound + 1
 \* the child is not lost: the test only ends after fork failed, the wait failed / was given up, or the child's end was seen
 ChildNotLost == pc = "end" => plan \in {<<>>, AnyPlan} \/ (ev # <<>> /\ ev[Len(ev)].kind \in {"waitpid", "eintr"})
 \* the run goes on: every test is run, and the overall verdict is a failure exactly when something was recorded
-AllRun == pc = "done" => ran = n
-RunCounts == ran = ti /\ ti <= n
-\* liveness: whatever the environment answers (EINTR for ever included), the run ends
+\* (ignored tests are only counted, unless the registry runs ignored tests)
+AllRun == pc = "done" => /\ ran + ign = n
+                         /\ sep => ran = Cardinality({i \in 1..n : WillRun(tests[i])})
+RunCounts == ran + ign = ti /\ ti <= n
+\* liveness: whatever the environment answers (EINTR for ever included), the run ends - every run of the registry does
 Terminates == <>(pc = "done")
+EveryRunEnds == InRun ~> (pc = "done")
 
 TypeOK == /\ pc \in {"idle", "next", "fork", "wait", "end", "done"} /\ n \in 0..MaxTests /\ ti \in 0..n
+          /\ sep \in BOOLEAN /\ ri \in BOOLEAN /\ Len(tests) <= MaxTests /\ \A i \in 1..Len(tests) : tests[i] \in {"plain", "ignored"}
+          /\ runs \in 0..MaxRuns /\ where \in {"none", "child", "runner"} /\ ign \in 0..n
           /\ retries \in 0..RetryBound + 1 /\ stops \in 0..MaxStops /\ tty \in BOOLEAN
 =============================================================================
